@@ -235,6 +235,13 @@ fn tamper_with_dir(env: &Env, src: &mut Src<'_>, only: Option<&str>, bases: std:
         (Edit::AddLe { elem: 0, stride: len, width: len, delta: 1 + src.below(32) as u128, modulus: None }, "add-small-cardinality")
     } else if only == Some("shuffle/transfer") {
         gen_elem_lsb(src, len)
+    } else if key.gate.contains("reveal_r") && len % 32 == 0 && src.below(4) != 0 {
+        // openings of curve points (the PRF mask g^r): a flipped bit almost never is a valid
+        // point encoding and is refused at decoding; the interesting substitution is ANOTHER
+        // VALID point (falls back to a bit flip where the 32 bytes are not a point)
+        let mut scalar = [0u8; 32];
+        scalar[..8].copy_from_slice(&(1 + src.below(u64::MAX - 1)).to_le_bytes());
+        (Edit::RistrettoAdd { elem: src.idx(len / 32), scalar }, "other-valid-point")
     } else {
         gen_edit(src, len)
     };
